@@ -365,7 +365,41 @@ class C08(ZooProp):
     min_eval = 20000
     assumptions = ("assertions enabled (no -DNDEBUG), ASan + UBSan; a faulted element-count that would request more than 2^20 cells is excluded and counted",)
     level_text = ("Complete enumeration of truncation points and of structural-word positions per generated dump, all ordered stack pairs, every failing "
-                  "read index; differential against an independent reference parser of the format.")
+                  "read index; differential against an independent reference parser of the format; thorough tier adds coverage-guided libFuzzer "
+                  "campaigns on nine loader types with the same differential oracle inside the target.")
+
+    def check(self, tier, seed):
+        rc = super().check(tier, seed)
+        if rc != 0 or tier != "thorough":
+            return rc
+        from . import fuzz
+        import json as _j
+        import os as _os
+        res = fuzz.campaign(self.pid, seed, runs=2000000)
+        viol = 0
+        for r in res:
+            for a in r["artifacts"]:
+                core.log(f"[C08] libFuzzer artifact for {r['stack']} ({r['mode']} corpus):\n{r['log_tail'][-1500:]}")
+                e1.violation(self.pid, a)
+                viol += 1
+        ev_path = _os.path.join(core.EVIDENCE, self.pid + ".json")
+        ev = _j.load(open(ev_path))
+        ev["coverage"]["libfuzzer"] = [{k: r[k] for k in ("stack", "mode", "execs", "loaded", "excluded", "wall")} for r in res]
+        ev["coverage"]["evaluations"] += sum(r["execs"] for r in res)
+        ev["violations"] = ev.get("violations", 0) + viol
+        _j.dump(ev, open(ev_path, "w"), indent=1)
+        return 1 if viol else 0
+
+    def replay(self, path):
+        import os as _os
+        if _os.path.basename(path).startswith("fuzz-"):
+            from . import fuzz
+            if fuzz.replay(path):
+                e1.violation(self.pid, path)
+                return 1
+            core.say(f"replay passes: property={self.pid} {path}")
+            return 0
+        return super().replay(path)
 
 
 @prop("C07")
